@@ -1,9 +1,27 @@
-"""Structural decomposition of the public-batch wrapper (`build_public_batch_constraints`): C12, C13, C18 (circuit side), C36, C10."""
+"""Structural decomposition of the public-batch wrapper (`build_public_batch_constraints`): C12, C13, C18 (circuit side), C36, C10.
+
+All index reasoning is done on loop-canonical terms (rules/lc.py): `for (i, pis_i) in v.iter().take(n).enumerate()`, `for i in 0..n`
+with `v[i]`, and zip forms give the same terms; helpers of the aggregator crate are expanded in place; a masked forward may be written
+`select(d, zero, x)`, `select(not d, x, zero)` or `mul(not d, x)`."""
 from . import terms as T
 from . import pat as P
-from . import circ
+from . import circ, lc
 from .pat import V, K, Cb
-from .pb import Ob, unmap, eval_int, _and_leaves, AGG
+from .pb import Ob, eval_int, _and_leaves, AGG
+
+
+def masked(t):
+    """(d, x) when t forwards x unless boolean d holds (then zero): select(d, 0, x) | select(not d, x, 0) | mul(not d, x)"""
+    b = P.match(Cb("cb.select", V("d"), K(0), V("x")), t)
+    if b:
+        return b["d"], b["x"]
+    b = P.match(Cb("cb.select", Cb("cb.not", V("d")), V("x"), K(0)), t)
+    if b:
+        return b["d"], b["x"]
+    b = P.match(Cb("cb.mul", Cb("cb.not", V("d")), V("x")), t)
+    if b:
+        return b["d"], b["x"]
+    return None
 
 
 def analyse(ck, prog=None):
@@ -11,9 +29,12 @@ def analyse(ck, prog=None):
     ob = Ob()
     body = prog.one(r"public_batch::circuit::circuit_logic::build_public_batch_constraints$", AGG)
     ck.saw(body)
-    ev = T.Evaluator(prog, inline=lambda p: "::constants::" in p)
+    # helpers of the aggregator crate are expanded in place (an extracted helper is the same circuit); gadgets of the common crate stay atomic
+    ev = T.Evaluator(prog, inline=lambda p: (p.startswith(AGG + "::") or p.startswith("<" + AGG + "::")) and "{closure" not in p)
     fr = ev.frame(body)
     effs = fr.effects()
+    for e in effs:
+        ck.saw(e.frame.body)
     targets = ("param", body.path, 2, "targets")
     n = ("param", body.path, 3, "n_inner")
     m = ("param", body.path, 4, "private_batch_num_leaves")
@@ -22,24 +43,36 @@ def analyse(ck, prog=None):
     cv = lambda s: prog.const_value("private_batch::circuit::constants::aggregated_output::" + s)
     OFF = {k: cv(k) for k in ("NUM_EXIT_SLOTS_OFFSET", "ASSET_ID_OFFSET", "VOLUME_FEE_BPS_OFFSET", "BLOCK_HASH_OFFSET", "BLOCK_NUMBER_OFFSET", "HEADER_LEN", "EXIT_SLOT_LEN")}
     ADDR_LEN = prog.const_value("public_batch::circuit::constants::AGGREGATOR_ADDRESS_LEN")
+    nests = {}
 
-    def pis_index(t):
-        t = P.norm(t)
-        if isinstance(t, tuple) and t and t[0] == "fld" and t[2] == "public_inputs":
-            b = t[1]
-            if isinstance(b, tuple) and b[0] == "idx" and b[1] == proofs:
+    def nest(e):
+        if id(e) not in nests:
+            nests[id(e)] = lc.Nest(e)
+        return nests[id(e)]
+
+    def C(t, e=None):
+        """loop-canonical form of a term, relative to e's loop nest when given"""
+        return P.norm((nest(e).canon if e is not None else lc.canon)(P.norm(t)))
+
+    def over_inners(v):
+        """v is a loop variable ranging over 0..n_inner"""
+        return lc.is_var(v, 0, n)
+
+    def pis_index(c):
+        c = P.norm(c)
+        if isinstance(c, tuple) and c and c[0] == "fld" and c[2] == "public_inputs":
+            b = P.norm(c[1])
+            if isinstance(b, tuple) and b and b[0] == "idx" and b[1] == proofs:
                 return b[2]
-            if isinstance(b, tuple) and b[0] == "elem" and unmap(b[1]) == ("take", proofs, n):
-                return ("elem", ("take", proofs, n))
         return None
 
-    def read(t):
-        """(inner index, offset term) for pis_i[off]"""
-        t = P.norm(t)
-        if isinstance(t, tuple) and t and t[0] == "idx":
-            i = pis_index(t[1])
+    def read(c):
+        """(inner index, offset term) for a canonical pis_i[off]"""
+        c = P.norm(c)
+        if isinstance(c, tuple) and c and c[0] == "idx":
+            i = pis_index(c[1])
             if i is not None:
-                return i, t[2]
+                return i, c[2]
         return None
 
     regs = [e for e in effs if e.name in ("cb.register_public_inputs", "cb.register_public_input")]
@@ -53,6 +86,7 @@ def analyse(ck, prog=None):
     # flags
     D = B = None
     d_eff = None
+    J = ("sym", "J")
     for e in effs:
         if e.raw.get("name") == "push" and len(e.args) == 2:
             val = P.norm(e.args[1])
@@ -63,34 +97,32 @@ def analyse(ck, prog=None):
                 blk = [x for x in a if x not in zs]
                 if zs and len(blk) == 1:
                     bt = blk[0]
-                    J = ("sym", "J")
-                    el = P.norm(fr.index(bt, J)) if isinstance(bt, tuple) and bt[0] == "from_fn" else None
+                    el = C(fr.index(bt, J), e) if isinstance(bt, tuple) and bt[0] == "from_fn" else None
                     rd = read(el) if el is not None else None
-                    if rd and rd[1] in (("bin", "Add", ("c", OFF["BLOCK_HASH_OFFSET"], rd[1][2][2] if isinstance(rd[1], tuple) and len(rd[1]) > 2 and T.is_const(rd[1][2]) else None), J),) or (
-                            rd and isinstance(rd[1], tuple) and rd[1][0] == "bin" and rd[1][1] == "Add" and P.const_of(rd[1][2]) == OFF["BLOCK_HASH_OFFSET"] and rd[1][3] == J):
+                    off = P.norm(rd[1]) if rd else None
+                    if (rd and isinstance(off, tuple) and off[0] == "bin" and off[1] == "Add"
+                            and ((P.const_of(off[2]) == OFF["BLOCK_HASH_OFFSET"] and off[3] == J) or (P.const_of(off[3]) == OFF["BLOCK_HASH_OFFSET"] and off[2] == J))):
                         D, d_eff, d_block, d_idx = e.args[0], e, bt, rd[0]
     if D is None:
         ob.add({"C12", "C13"}, False, "TERM", "pub/is-dummy-flag", "no per-inner flag is_dummy_i = bytes_digest_eq(pis_i[BLOCK_HASH_OFFSET..+4], [0;4]) found", loc0)
         return ob, None
-    d_loop = circ.loops_of(d_eff)
-    ok = len(T.contents(effs, D)) == 1 and len(d_loop) == 1 and unmap(d_loop[0]) == ("take", proofs, n) and d_idx == ("elem", ("take", proofs, n))
-    ob.add({"C12", "C13"}, ok, "TERM", "pub/is-dummy-flag", "is_dummy_i = bytes_digest_eq(pis_i[%d..%d], [zero;4]), one flag per inner proof in proof order for the first n_inner proofs" % (OFF["BLOCK_HASH_OFFSET"], OFF["BLOCK_HASH_OFFSET"] + 4), d_eff.loc)
+    d_nest = nest(d_eff)
+    ok = len(T.contents(effs, D)) == 1 and d_nest.depth() == 1 and d_nest.var(0) == d_idx and over_inners(d_idx) and not circ.uncond_problems(d_eff)
+    ob.add({"C12", "C13"}, ok, "TERM", "pub/is-dummy-flag", "is_dummy_i = bytes_digest_eq(pis_i[%d..%d], [zero;4]), one flag per inner proof in proof order for the first n_inner proofs" % (OFF["BLOCK_HASH_OFFSET"], OFF["BLOCK_HASH_OFFSET"] + 4), d_eff.loc,
+           [T.show(l)[:160] for l in d_nest.loops])
     for e in effs:
-        if e.raw.get("name") == "push" and len(e.args) == 2 and P.norm(e.args[1]) == d_block and e.args[0] != D and circ.loops_of(e) == d_loop:
+        if e.raw.get("name") == "push" and len(e.args) == 2 and P.norm(e.args[1]) == d_block and e.args[0] != D and circ.loops_of(e) == d_nest.loops:
             B = e.args[0]
     ob.add({"C12", "C13"}, B is not None and len(T.contents(effs, B)) == 1, "TERM", "pub/block-hashes", "block_hashes[i] holds the same four BLOCK_HASH limbs", d_eff.loc)
 
-    def Dat(t):
-        t = P.norm(t)
-        if isinstance(t, tuple) and t and t[0] == "idx" and t[1] == D:
-            i = t[2]
-            if isinstance(i, tuple) and i[0] == "index":
-                i = ("index", unmap(i[1]))
-            return i
+    def Dat(c):
+        c = P.norm(c)
+        if isinstance(c, tuple) and c and c[0] == "idx" and c[1] == D:
+            return c[2]
         return None
 
-    def notD(t):
-        a = P.match(Cb("cb.not", V("x")), t)
+    def notD(c):
+        a = P.match(Cb("cb.not", V("x")), c)
         return Dat(a["x"]) if a else None
 
     def check_take(take, what, e):
@@ -114,14 +146,13 @@ def analyse(ck, prog=None):
                             recs = [x for x in o if isinstance(x, tuple) and x[0] in ("rec", "phi")]
                             oth = [x for x in o if not (isinstance(x, tuple) and x[0] in ("rec", "phi"))]
                             fr_ok = len(recs) == 1 and len(oth) == 1 and notD(oth[0]) == i[0]
-        r = circ.range_expr(i[0][1]) if (ok and isinstance(i[0], tuple) and i[0][0] == "elem") else None
-        rng_ok = r is not None and P.const_of(r[0]) == 0 and P.norm(r[1]) == n
+        rng_ok = ok and over_inners(i[0])
         ob.add({"C12"}, ok and fr_ok and rng_ok, "TERM", "pub/first-real/%s/take" % what,
                "take_i = and(not is_dummy_i, not found_real), found_real = {false, or(found_real, not is_dummy_i)}, i over 0..n_inner", e.loc, T.show(take, maxdepth=8)[:400])
         return i[0] if ok else None
 
     def scalar_ref(t, off, what, e):
-        t = P.norm(t)
+        t = C(t)
         good = False
         if isinstance(t, tuple) and t[0] == "phi" and len(t[2]) == 2:
             init = [x for x in t[2] if P.const_of(x) == 0]
@@ -146,7 +177,7 @@ def analyse(ck, prog=None):
     asset_ref = scalar_ref(items[1][1], OFF["ASSET_ID_OFFSET"], "asset", items[1][2])
     fee_ref = scalar_ref(items[2][1], OFF["VOLUME_FEE_BPS_OFFSET"], "fee", items[2][2])
     k3, t3, e3 = items[3]
-    t3 = P.norm(t3)
+    t3 = C(t3)
     good = False
     if k3 == "all" and isinstance(t3, tuple) and t3[0] == "upd" and isinstance(t3[2], tuple) and t3[2][0] == "array" and len(t3[2][1]) == 4 and all(P.const_of(x) == 0 for x in t3[2][1]) and len(t3[3]) == 1:
         proj, val = t3[3][0]
@@ -154,9 +185,8 @@ def analyse(ck, prog=None):
         if b and len(proj) == 1 and proj[0][0] == "i":
             j = proj[0][1]
             i = check_take(b["take"], "block-hash", e3)
-            rj = circ.range_expr(j[1]) if isinstance(j, tuple) and j[0] == "elem" else None
             kp = P.norm(b["keep"])
-            good = (i is not None and rj is not None and P.const_of(rj[0]) == 0 and P.const_of(rj[1]) == 4 and P.norm(b["val"]) == ("idx", ("idx", B, i), j)
+            good = (i is not None and lc.is_var(j, 0, 4) and P.norm(b["val"]) == ("idx", ("idx", B, i), j)
                     and isinstance(kp, tuple) and kp[0] == "idx" and kp[2] == j)
     ob.add({"C12"}, good, "TERM", "pub/first-real/block-hash", "block_ref[j] = {zero, select(take_i, block_hashes[i][j], block_ref[j])}, j in 0..4", e3.loc, T.show(t3, maxdepth=6)[:400])
     block_ref = t3
@@ -172,22 +202,20 @@ def analyse(ck, prog=None):
     # forwarding regions
     def region(item, what, count_term_fn, width, start_fn):
         k, t, e = item
-        loops = circ.loops_of(e)
-        okr = k == "one" and len(loops) == 3 and unmap(loops[0]) == ("enumerate", ("take", proofs, n))
-        r1 = circ.range_expr(loops[1]) if okr else None
-        r2 = circ.range_expr(loops[2]) if okr else None
-        okr = okr and r1 is not None and r2 is not None and P.const_of(r1[0]) == 0 and P.const_of(r2[0]) == 0 and P.const_of(r2[1]) == width
-        det = {"loops": [T.show(l)[:160] for l in loops], "term": T.show(t, maxdepth=6)[:400]}
+        ns = nest(e)
+        vs = ns.vars() if ns.depth() == 3 else []
+        okr = k == "one" and len(vs) == 3 and all(v is not None for v in vs) and over_inners(vs[0]) and vs[1][1] == 0 and lc.is_var(vs[2], 0, width) and not circ.uncond_problems(e)
+        det = {"loops": [T.show(l)[:160] for l in ns.loops], "term": T.show(t, maxdepth=6)[:400]}
         if okr:
-            s, j = ("elem", loops[1]), ("elem", loops[2])
-            b = P.match(Cb("cb.select", V("d"), K(0), V("x")), t)
-            okr = b is not None and Dat(b["d"]) == ("index", ("take", proofs, n))
-            rd = read(b["x"]) if b else None
-            okr = okr and rd is not None and rd[0] == ("elem", ("take", proofs, n))
+            i, s, j = vs
+            mk = masked(C(t, e))
+            okr = mk is not None and Dat(mk[0]) == i
+            rd = read(mk[1]) if mk else None
+            okr = okr and rd is not None and rd[0] == i
             bad = []
             if okr:
                 for mv in range(1, 65):
-                    cnt = eval_int(r1[1], {m: mv})
+                    cnt = eval_int(s[2], {m: mv}) if not isinstance(s[2], int) else s[2]
                     if cnt != count_term_fn(mv):
                         bad.append(("count", mv, cnt))
                         break
@@ -199,7 +227,7 @@ def analyse(ck, prog=None):
                 okr = not bad
                 det["bad"] = bad[:4]
         ob.add({"C12", "C36"}, okr, "ORDER+TERM", "pub/out/%s" % what,
-               "%s region: for inner i (outermost), element k, limb j: push select(is_dummy_i, zero, pis_i[start + k*%d + j]); counts and offsets evaluated for every M in 1..64" % (what, width), e.loc, det)
+               "%s region: for inner i (outermost), element k, limb j: push pis_i[start + k*%d + j] masked to zero when is_dummy_i; counts and offsets evaluated for every M in 1..64" % (what, width), e.loc, det)
 
     region(items[6], "exit-slots", lambda mv: 2 * mv, OFF["EXIT_SLOT_LEN"], lambda mv: OFF["HEADER_LEN"])
     region(items[7], "nullifiers", lambda mv: mv, 4, lambda mv: OFF["HEADER_LEN"] + 2 * mv * OFF["EXIT_SLOT_LEN"])
@@ -210,9 +238,11 @@ def analyse(ck, prog=None):
     cons = [e for e in effs if e.name in circ.CONSTRAINT_NAMES and e.name != "cb.register_public_inputs"]
     found = {}
     for e in cons:
-        ops = [P.norm(x) for x in circ.cb_operands(e)]
+        ops = [C(x, e) for x in circ.cb_operands(e)]
+        ns = nest(e)
         cls = None
-        if e.name == "cb.connect":
+        if e.name == "cb.connect" and ns.depth() == 1 and over_inners(ns.var(0)):
+            iv = ns.var(0)
             for x, y in ((ops[0], ops[1]), (ops[1], ops[0])):
                 if P.const_of(y) != 1:
                     continue
@@ -225,19 +255,18 @@ def analyse(ck, prog=None):
                     continue
                 i = [d for d in di if d is not None][0]
                 other = [z for z, d in zip(o, di) if d is None][0]
-                if i != ("index", ("take", proofs, n)):
+                if i != iv:
                     continue
                 eq = P.cb_args(other, "cb.is_equal")
                 if eq is not None:
                     eq = [P.norm(z) for z in eq]
                     rds = [read(z) for z in eq]
                     for ref, off, nm in ((asset_ref, OFF["ASSET_ID_OFFSET"], "asset"), (fee_ref, OFF["VOLUME_FEE_BPS_OFFSET"], "fee")):
-                        if ref in eq and any(r and r[0] == ("elem", ("take", proofs, n)) and P.const_of(r[1]) == off for r in rds):
+                        if ref in eq and any(r and r[0] == iv and P.const_of(r[1]) == off for r in rds):
                             cls = nm
                 nmo = P.call_name(other)
                 if nmo and nmo.endswith("gadgets::bytes_digest_eq"):
                     a = [P.norm(z) for z in other[4][1:]]
-                    a = [("idx", z[1], ("index", unmap(z[2][1]))) if (isinstance(z, tuple) and z[0] == "idx" and isinstance(z[2], tuple) and z[2][0] == "index") else z for z in a]
                     if ("idx", B, i) in a and block_ref in a:
                         cls = "block"
         if cls is None:
@@ -247,11 +276,7 @@ def analyse(ck, prog=None):
             found.setdefault(cls, []).append(e)
     for nm in ("asset", "fee", "block"):
         hs = found.get(nm, [])
-        okc = len(hs) == 1
-        if okc:
-            e = hs[0]
-            lp = circ.loops_of(e)
-            okc = len(lp) == 1 and unmap(lp[0]) == ("enumerate", ("take", proofs, n)) and not circ.uncond_problems(e)
+        okc = len(hs) == 1 and not circ.uncond_problems(hs[0])
         ob.add({"C13"}, okc, "INV", "pub/constraint/%s" % nm, "exactly one `is_dummy_i OR %s_i == %s_ref` constraint, for every inner i in 0..n_inner (found %d)" % (nm, nm, len(hs)), hs[0].loc if hs else loc0)
     free = [e for e in effs if e.name in circ.FREE_NAMES or e.name.endswith("BoolTarget::new_unsafe")]
     ob.add({"C10"}, not free, "FREE", "pub/free-none", "the public-batch wrapper logic creates no virtual target and no unsafe boolean", free[0].loc if free else loc0)
